@@ -60,10 +60,23 @@ func CreateAVCDecConfRec(spsNalus [][]byte, ppsNalus [][]byte, includePS bool) (
 		NoTrailingInfo:       false,
 	}
 	if includePS {
-		drc.SPSnalus = spsNalus
-		drc.PPSnalus = ppsNalus
+		// the record gets its own copy: the caller may re-use the buffers the NAL units were read into
+		drc.SPSnalus = copyNalus(spsNalus)
+		drc.PPSnalus = copyNalus(ppsNalus)
 	}
 	return &drc, nil
+}
+
+// copyNalus returns a deep copy of a list of NAL units (nil for nil).
+func copyNalus(nalus [][]byte) [][]byte {
+	if nalus == nil {
+		return nil
+	}
+	out := make([][]byte, len(nalus))
+	for i, nalu := range nalus {
+		out[i] = append([]byte{}, nalu...)
+	}
+	return out
 }
 
 // DecodeAVCDecConfRec - decode an AVCDecConfRec
